@@ -24,12 +24,32 @@ GLOBAL = "metrics::recorder::GLOBAL_RECORDER"
 NOOP = "metrics::recorder::NOOP_RECORDER"
 
 
+SLOT = {"live": "Some", "vacant": "None", "ty": None}  # how the per-thread slot says "a recorder is installed" / "none is"
+
+
+def _slot_enum(m, ty):
+    """A private two-variant enum standing in for Option<NonNull<dyn Recorder>>: (path, live variant, vacant variant)."""
+    a = m.adts.get(strip_generics(ty))
+    if not a or a.get("kind") != "enum" or a.get("exported") or len(a.get("variants", [])) != 2:
+        return None
+    live = [v for v in a["variants"] if len(v.get("fields", [])) == 1 and "NonNull<" in v["fields"][0].get("ty", "") and "Recorder" in v["fields"][0].get("ty", "")]
+    vac = [v for v in a["variants"] if not v.get("fields")]
+    return (a["path"], live[0]["name"], vac[0]["name"]) if len(live) == 1 and len(vac) == 1 else None
+
+
 def resolve_statics(m):
     """LOCAL / GLOBAL / NOOP by role (type), so moving or renaming the private statics is invisible."""
     global LOCAL, GLOBAL, NOOP
     raw = getattr(m, "raw_fns", None) or m.fns
+    SLOT.update({"live": "Some", "vacant": "None", "ty": None})
     for f in raw:
         sty = f.j.get("sty") or ""
+        if f.dk == "Static" and f.path.endswith("__RUST_STD_INTERNAL_VAL") and "::{constant#0}" in f.path and "Cell<" in sty and "NonNull<" not in sty:
+            inner = sty.split("Cell<", 1)[1].rsplit(">", 1)[0]
+            se = _slot_enum(m, inner)
+            if se:
+                LOCAL = f.path.split("::{constant#0}")[0]
+                SLOT.update({"live": se[1], "vacant": se[2], "ty": se[0]})
         if f.dk == "Static" and sty.endswith("noop::NoopRecorder"):
             NOOP = f.path
         elif f.dk == "Static" and sty.endswith("cell::RecorderOnceCell"):
@@ -120,14 +140,14 @@ def with_recorder_leaves(wr):
     for c, bb, payload, extra in leaves:
         payload = strip_sym(payload)
         g = gates(c.body, bb) + list(extra)
-        some_get = any(lab == "Some" and is_get(d) for d, lab in g)
-        none_get = any(lab == "None" and is_get(d) for d, lab in g)
+        some_get = any(lab == SLOT["live"] and is_get(d) for d, lab in g)
+        none_get = any(lab == SLOT["vacant"] and is_get(d) for d, lab in g)
         some_tl = any(lab == "Some" and is_try_load(d) for d, lab in g)
         none_tl = any(lab == "None" and is_try_load(d) for d, lab in g)
         p = sym_through(payload, "NonNull<T>::as_ref")
         if p[0] == "field" and p[2] == "0":
             p = strip_sym(p[1])
-        if some_get and p[0] == "downcast" and p[2] == "Some" and is_get(p[1]) and found["local"] is None:
+        if some_get and p[0] == "downcast" and p[2] == SLOT["live"] and is_get(p[1]) and found["local"] is None:
             found["local"] = c
         elif none_get and some_tl and p[0] == "downcast" and p[2] == "Some" and is_try_load(p[1]) and found["global"] is None:
             found["global"] = c
@@ -136,13 +156,13 @@ def with_recorder_leaves(wr):
         else:
             other.append((c, sym_str(payload)[:80]))
         info.append({
-            "local_payload": p[0] == "downcast" and p[2] == "Some" and is_get(p[1]),
+            "local_payload": p[0] == "downcast" and p[2] == SLOT["live"] and is_get(p[1]),
             "global_payload": p[0] == "downcast" and p[2] == "Some" and is_try_load(p[1]),
             "noop_payload": _mentions_const(payload, NOOP) and not any(x and x[0] == "call" for x in sym_walk(payload) if isinstance(x, tuple)),
             "some_get": some_get, "none_get": none_get, "some_tl": some_tl, "none_tl": none_tl,
         })
     tls = [c for c in nonforeign_calls(wr) if _calls_role(c, loads)]
-    gated = len(tls) == 1 and any(lab == "None" and is_get(d) for d, lab in gates(tls[0].body, tls[0].bb))
+    gated = len(tls) == 1 and any(lab == SLOT["vacant"] and is_get(d) for d, lab in gates(tls[0].body, tls[0].bb))
     return {"n_user_calls": len(leaves), "n_call_sites": n_calls, "found": found, "other": other, "info": info, "try_loads": tls, "try_load_gated": gated}
 
 
@@ -201,7 +221,7 @@ def run(ctx):
                     if sym_is_call(r, "Cell<T>::replace"):
                         newv = strip_sym(r[2][1])
                         # Some(ptr) where ptr derives from the parent's parameter 0
-                        if newv[0] == "agg" and newv[2] == "Some" and any(x[0] == "arg" and x[1] == 0 for x in sym_walk(newv) if isinstance(x, tuple) and x):
+                        if newv[0] == "agg" and newv[2] == SLOT["live"] and any(x[0] == "arg" and x[1] == 0 for x in sym_walk(newv) if isinstance(x, tuple) and x):
                             ok = True
                         else:
                             why = f"replace() installs {sym_str(newv)}"
@@ -215,7 +235,7 @@ def run(ctx):
         reps = [c for c in nonforeign_calls(dropf) if c.is_("Cell<T>::replace", "Cell<T>::set")]
         if len(outer) == 1 and _mentions_const(arg_syms(outer[0])[0], LOCAL) and len(reps) == 1:
             a = arg_syms(reps[0])
-            v = sym_through(a[1], "Option<T>::take", "Clone::clone")
+            v = sym_through(a[1], "Option<T>::take", "Clone::clone", "mem::replace", "mem::take")
             txt = repr(v)
             ok = saved_field is not None and v[0] == "field" and v[2] == saved_field and sym_arg(sym_through(v[1])) is not None
             why = f"drop installs {sym_str(a[1])}"
@@ -291,6 +311,8 @@ def run(ctx):
                         if c and c.get("named") == LOCAL:
                             tys.add(c.get("ty"))
     want_ty = "std::thread::local::LocalKey<core::cell::Cell<core::option::Option<core::ptr::non_null::NonNull<dyn metrics::recorder::Recorder>>>>"
+    if SLOT["ty"] and tys == {f"std::thread::local::LocalKey<core::cell::Cell<{SLOT['ty']}>>"}:
+        tys = {want_ty}  # a private two-variant enum {vacant, installed(NonNull<dyn Recorder>)} in place of the Option
     chk.ob("C01.c", "LOCAL_RECORDER [thread-local key type]", tys == {want_ty}, "LOCAL_RECORDER is a std::thread::LocalKey<Cell<Option<NonNull<dyn Recorder>>>> (per-thread slot)" if tys == {want_ty} else f"LOCAL_RECORDER has type(s) {sorted(tys)} — not a thread-local key of the expected shape")
     witness_rule(ctx, "C01.c", "C01", only={"c01_guard_send_fail", "c01_guard_same_thread_pass", "c01_local_nonsync_nonstatic_pass"})
     witness_rule(ctx, "C01.d", "C01", only={"c01_outlive_fail", "c01_outlive_twin_pass"})
